@@ -2,7 +2,7 @@
    allowed reaction; the theorems about whole runs. *)
 From H2V Require Import Base.Bytes Base.MachineInt Base.Result Gen.GenConsts Impl.ServerConn.
 From H2V Require Import Proofs.SrvBase Proofs.SrvRfcDefs Proofs.SrvRfcSpec Proofs.SrvRfcModel Proofs.SrvRfcSim Proofs.SrvRfcEff
-  Proofs.SrvRfcSend Proofs.SrvRfcStep Proofs.SrvRfcKit Proofs.SrvRfcRl Proofs.SrvRfcSl Proofs.SrvRfcKnown Proofs.SrvRfcFrame.
+  Proofs.SrvRfcSend Proofs.SrvRfcStep Proofs.SrvRfcKit Proofs.SrvRfcRl Proofs.SrvRfcSl Proofs.SrvRfcKnown Proofs.SrvRfcFrame Proofs.SrvRfcBatch.
 From Coq Require Import ZArith Lia ZifyN ZifyNat ZifyBool.
 Local Open Scope N_scope.
 
@@ -107,6 +107,76 @@ Proof.
            ++ intros p Hp. rewrite S2 in Hp. apply AllFin. apply (get_previous_snoc (sc_strms c) st p); [rewrite Hst, KHb; reflexivity | exact Hp].
       * apply fkind_eqb_neq in KHb.
         apply (K_created_other hstate dec_field enc_field enc_set_max cfg c s ph fr ec' c2 st HS Hsl SQ Od T KHb Kok DB U E).
+Qed.
+
+(* ---------- frames on stream 0 that reach the stream loop ---------- *)
+
+Definition bump (delta : Z) : list stream -> list stream -> list stream * bool :=
+  fix bumpall (pre l : list stream) {struct l} : list stream * bool :=
+    match l with
+    | [] => (pre, false)
+    | s :: t =>
+      let s' := set_window s (st_window s + delta) in
+      if (MAXWIN <? st_window s')%Z then (pre ++ s' :: t, true) else bumpall (pre ++ [s']) t
+    end.
+
+Lemma bump_cons delta pre s t :
+  bump delta pre (s :: t) =
+  let s' := set_window s (st_window s + delta) in
+  if (MAXWIN <? st_window s')%Z then (pre ++ s' :: t, true) else bump delta (pre ++ [s']) t.
+Proof. reflexivity. Qed.
+
+Lemma sl_frame_settings c fr : sf_sid fr = 0 -> sf_kind fr = KSettings ->
+  sl_frame dec_field enc_set_max cfg c fr =
+  let c0 := if sf_set_hastable fr then upd_enc c (enc_set_max (sc_enc c) (sf_set_table fr)) else c in
+  if sf_set_haswin fr then
+    let newInit := signed 32 (sf_set_win fr) in
+    let c1 := upd_initWin c0 newInit in
+    let '(l', over) := bump (newInit - sc_initWin c0)%Z [] (sc_strms c1) in
+    let c2 := upd_strms c1 l' in
+    if over then brk (write_goaway c2 0 c_FlowControlError) else cont (flush_streams (emit c2 OSettingsAck))
+  else cont (emit c0 OSettingsAck).
+Proof. intros Z K. unfold sl_frame. rewrite Z, K. reflexivity. Qed.
+
+Lemma sl_frame_winupd0 c fr : sf_sid fr = 0 -> sf_kind fr = KWinUpd ->
+  sl_frame dec_field enc_set_max cfg c fr =
+  let w := (sc_clientWindow c + Z.of_N (sf_inc fr))%Z in
+  let c1 := upd_clientWindow c w in
+  if (MAXWIN <? w)%Z then brk (write_goaway c1 0 c_FlowControlError) else cont (flush_streams c1).
+Proof. intros Z K. unfold sl_frame. rewrite Z, K. reflexivity. Qed.
+
+Lemma set_window_shape s w : same_shape s (set_window s w).
+Proof. unfold same_shape, strm_ok, has_more_to_send. cbn. auto. Qed.
+
+Lemma bump_shape delta : forall l pre pre0 l' over, Forall2 same_shape pre0 pre ->
+  bump delta pre l = (l', over) -> Forall2 same_shape (pre0 ++ l) l'.
+Proof.
+  induction l as [|s t IH]; intros pre pre0 l' over F.
+  - intro H. inversion H; subst. rewrite app_nil_r. exact F.
+  - rewrite bump_cons. cbv zeta. destruct (MAXWIN <? _)%Z.
+    + intro H. inversion H; subst. apply Forall2_app; [exact F|]. constructor; [apply set_window_shape|].
+      clear. induction t; constructor; [apply same_shape_refl | assumption].
+    + intro H. replace (pre0 ++ s :: t) with ((pre0 ++ [s]) ++ t) by (rewrite <- app_assoc; reflexivity).
+      apply (IH _ _ _ _ (Forall2_app F (Forall2_cons _ _ (set_window_shape s _) (Forall2_nil _))) H).
+Qed.
+
+Lemma no_pending_shape l l' : Forall2 (fun a b => st_responded b = st_responded a /\ st_handlerRunning b = st_handlerRunning a /\ has_more_to_send b = has_more_to_send a) l l' ->
+  forallb (fun st => negb (st_responded st && negb (st_handlerRunning st) && has_more_to_send st)) l' =
+  forallb (fun st => negb (st_responded st && negb (st_handlerRunning st) && has_more_to_send st)) l.
+Proof. induction 1 as [|a b l l' (A & B & C) _ IH]; [reflexivity|]. cbn [forallb]. rewrite A, B, C, IH. reflexivity. Qed.
+
+Lemma bump_flags delta : forall l pre pre0 l' over,
+  Forall2 (fun a b => st_responded b = st_responded a /\ st_handlerRunning b = st_handlerRunning a /\ has_more_to_send b = has_more_to_send a) pre0 pre ->
+  bump delta pre l = (l', over) ->
+  Forall2 (fun a b => st_responded b = st_responded a /\ st_handlerRunning b = st_handlerRunning a /\ has_more_to_send b = has_more_to_send a) (pre0 ++ l) l'.
+Proof.
+  induction l as [|s t IH]; intros pre pre0 l' over F.
+  - intro H. inversion H; subst. rewrite app_nil_r. exact F.
+  - rewrite bump_cons. cbv zeta. destruct (MAXWIN <? _)%Z.
+    + intro H. inversion H; subst. apply Forall2_app; [exact F|]. constructor; [repeat split|].
+      clear. induction t; constructor; [repeat split | assumption].
+    + intro H. replace (pre0 ++ s :: t) with ((pre0 ++ [s]) ++ t) by (rewrite <- app_assoc; reflexivity).
+      eapply IH; [|exact H]. apply Forall2_app; [exact F|]. constructor; [repeat split | constructor].
 Qed.
 
 End Main.
